@@ -4,6 +4,7 @@ package main
 
 import (
 	"bytes"
+	"sync"
 	"encoding/json"
 	"fmt"
 	"os"
@@ -21,6 +22,7 @@ type replayPlan struct {
 	test     string
 	env      map[string]string
 	why      string
+	multi    []string // alternative values of GOVC_OP to try in turn
 }
 
 // modelVal finds the model value of the first variable whose name starts with one of the prefixes.
@@ -118,6 +120,29 @@ func init() {
 	})
 }
 
+func init() {
+	// family "expired-op": obligations of the table-level operations about an expired-but-unswept key
+	ops := map[string][]string{
+		"(*cache).GetIfPresent": {"GetIfPresent"}, "(*cache).GetEntry": {"GetEntry"}, "(*cache).GetEntryQuietly": {"GetEntryQuietly"},
+		"(*cache).getNode": {"GetIfPresent", "GetEntry"}, "(*cache).getNodeQuietly": {"GetEntryQuietly", "SetExpiresAfter"},
+		"(*cache).set": {"Set", "SetIfAbsent"}, "(*cache).Set": {"Set"}, "(*cache).SetIfAbsent": {"SetIfAbsent"},
+		"(*cache).Invalidate": {"Invalidate"}, "(*cache).doCompute": {"Compute", "ComputeIfAbsent", "ComputeIfPresent"},
+		"(*cache).Compute": {"Compute"}, "(*cache).ComputeIfAbsent": {"ComputeIfAbsent"}, "(*cache).ComputeIfPresent": {"ComputeIfPresent"},
+		"(*cache).SetExpiresAfter": {"SetExpiresAfter"}, "(*cache).SetRefreshableAfter": {"SetRefreshableAfter"},
+		"(*cache).nodes": {"All", "Keys", "Values"}, "(*cache).All": {"All"}, "(*cache).Keys": {"Keys"}, "(*cache).Values": {"Values"},
+		"(*cache).entries": {"All"}, "(*cache).evictionOrder": {"Coldest", "Hottest"},
+		"Node.HasExpired": {"GetIfPresent", "Set", "Invalidate", "Compute", "All"},
+	}
+	replayFamilies = append(replayFamilies, func(o *oblResult) *replayPlan {
+		list, ok := ops[o.Func]
+		if !ok || !(strings.Contains(o.Tag, "C03") || strings.Contains(o.Tag, "C01") || strings.Contains(o.Tag, "expired")) {
+			return nil
+		}
+		return &replayPlan{template: "expired_op_test.go.tmpl", pkgDir: ".", test: "TestGovcReplay_ExpiredOp", multi: list,
+			env: map[string]string{"GOVC_OP": list[0]}, why: "public operation(s) " + strings.Join(list, ", ") + " applied to an expired-but-unswept key of the real cache"}
+	})
+}
+
 // tryReplay attempts to reproduce a failed obligation on the real code.
 func tryReplay(w *world, prop string, o *oblResult, rec map[string]any) (bool, map[string]any) {
 	for _, fam := range replayFamilies {
@@ -125,12 +150,47 @@ func tryReplay(w *world, prop string, o *oblResult, rec map[string]any) (bool, m
 		if plan == nil {
 			continue
 		}
-		ok, out, cmdline := runReplay(w.repo, w.verifDir, plan)
+		ok, out, cmdline := cachedReplay(w.repo, w.verifDir, plan)
+		for _, alt := range plan.multi[min(1, len(plan.multi)):] {
+			if ok {
+				break
+			}
+			plan.env["GOVC_OP"] = alt
+			ok, out, cmdline = cachedReplay(w.repo, w.verifDir, plan)
+		}
 		detail := map[string]any{"attempted": true, "template": plan.template, "env": plan.env, "test": plan.test, "package_dir": plan.pkgDir,
 			"what": plan.why, "reproduced": ok, "command": cmdline, "output": out}
 		return ok, detail
 	}
 	return false, map[string]any{"attempted": false, "reason": "no replay template for this obligation family; the solver model is recorded above"}
+}
+
+var replayCache = map[string][3]string{}
+var replayMu sync.Mutex
+
+// cachedReplay runs each distinct (template, environment) once per check run.
+func cachedReplay(repo, verifDir string, plan *replayPlan) (bool, string, string) {
+	var ks []string
+	for k, v := range plan.env {
+		ks = append(ks, k+"="+v)
+	}
+	sort.Strings(ks)
+	key := plan.template + "|" + strings.Join(ks, ",")
+	replayMu.Lock()
+	if r, ok := replayCache[key]; ok {
+		replayMu.Unlock()
+		return r[0] == "1", r[1], r[2]
+	}
+	replayMu.Unlock()
+	ok, out, cmd := runReplay(repo, verifDir, plan)
+	flag := "0"
+	if ok {
+		flag = "1"
+	}
+	replayMu.Lock()
+	replayCache[key] = [3]string{flag, out, cmd}
+	replayMu.Unlock()
+	return ok, out, cmd
 }
 
 var reReproduced = regexp.MustCompile(`(?m)^REPLAY-REPRODUCED: (.*)$`)
